@@ -26,6 +26,7 @@ DOC = {
         "use the same attribute set."
     ),
     "rules": {
+        "C16-R3": "writers drop no column of the parameter data frame; the scientific-notation pattern (a source constant, interpreted with the stdlib on a fixed sample of spellings) accepts 1e3, 1.5e3, .5e3 with optional signs and nothing without an exponent",
         "C16-R2": "every loader (list, dict, data frame, file plugins) constructs Parameters through __init__, which ends with the expression refresh; the refresh is an exact fixed point bounded by the number of expression parameters, so expressions that reference other expression parameters - in any declaration order - hold their value after loading",
         "C16-R1": "per format: {(minimum,-inf),(maximum,+inf)} blanked by the writer == filled by the reader; na_rep in na_values; headers are lower-cased then renamed with OPTION_NAMES_DESERIALIZED, which is the inverse of the injective, lower-case OPTION_NAMES_SERIALIZED over Parameter attributes; tsv uses sep='\\t' in both directions through the csv plugin; list and dict loaders number unnamed parameters from 1 counting only non-dict entries; to_dataframe/as_dict exclude exactly the non-init attribute; NaN expressions become None",
     },
@@ -240,9 +241,49 @@ def r2(ctx) -> None:
     fixed_point(ctx, rule="C16-R2")
 
 
+def r3(ctx) -> None:
+    """Writers keep every column; the scientific-notation pattern covers every spelling yaml leaves as a string."""
+    import re as _re
+
+    for rel, cls in ((CSV, "CsvProjectIo"), (XLS, "ExcelProjectIo")):
+        sv = ctx.fn(rel, f"{cls}.save_parameters")
+        drops = [c for c in lib.calls(sv) if isinstance(c.func, ast.Attribute) and c.func.attr in ("drop", "pop", "filter", "reindex")]
+        drops += [n for n in lib.nodes(sv, ast.Delete)]
+        sel = [n for n in lib.nodes(sv, ast.Subscript) if isinstance(n.ctx, ast.Load) and isinstance(n.slice, (ast.List, ast.ListComp)) and norm(n.value) == "df"]
+        colkw = [c for c in lib.calls(sv) if kwarg(c, "columns") is not None and isinstance(c.func, ast.Attribute) and c.func.attr.startswith("to_")]
+        bad = drops + sel + colkw
+        ctx.ob("C16-R3", f"{cls}.save_parameters/all-columns-written", not bad, sv, bad[0] if bad else sv.node,
+               "every attribute of the parameters (standard_error included) is written whatever the options: the same files are read back "
+               "as initial parameters of chained fits", construct=lib.short(bad[0], 100) if bad else "def save_parameters")
+    mi = ctx.repo.module("glotaran/utils/regex.py")
+    ci = ctx.repo.cls("glotaran/utils/regex.py", "RegexPattern")
+    pat = ci.class_assigns.get("number_scientific")
+    src = lib.const_str(pat.args[0]) if isinstance(pat, ast.Call) and pat.args else None
+    ok = False
+    trace = []
+    if src is not None:
+        try:
+            rx = _re.compile(src)  # the constant pattern of the source, interpreted by the stdlib
+            must = ["1e3", "1E3", "1.5e3", ".5e3", "+.5e3", "-1.5E+3", "1e-3", "0.5e3", "12e10"]
+            must_not = ["abc", "1.5", "e3", "1e", "s1", "k.1", "1"]
+            miss = [x for x in must if rx.fullmatch(x) is None]
+            extra = [x for x in must_not if rx.fullmatch(x) is not None]
+            ok = not miss and not extra
+            trace = [f"pattern: {src}", f"not accepted: {miss}", f"wrongly accepted: {extra}"]
+        except _re.error as e:
+            trace = [f"invalid pattern: {e}"]
+    ctx.ob("C16-R3", "RegexPattern.number_scientific/language", ok, None, pat or mi.tree,
+           "yaml leaves 1e3, 1.5e3 and .5e3 (no dot, unsigned exponent, bare decimal point) as strings; the pattern must accept all of them "
+           "and nothing without an exponent - a string it misses silently becomes the label of a NaN parameter", trace,
+           construct=f"number_scientific = {src!r}")
+    cv = ctx.fn("glotaran/utils/sanitize.py", "convert_scientific_to_float")
+    ok = "rp.number_scientific" in norm(cv.node) and "float(value)" in norm(cv.node)
+    ctx.ob("C16-R3", "convert_scientific_to_float/uses-pattern", ok, cv, cv.node, "strings matching the pattern are converted with float()")
+
+
 def check(ctx) -> None:
     for g in check.groups:
         g(ctx)
 
 
-check.groups = [r1, r2]
+check.groups = [r1, r2, r3]
